@@ -36,6 +36,9 @@ HITS = [
     hit('parabola', (1, 4), (-1, 1), (0, 0, 0), (1, 1), (0, 0, 1), (1, 0, 0)),
     hit('parabola', (1, 4), (-1, 1), (3, 0, (9, 8)), (1, 1), ((-3, 5), 0, (4, 5)), (0, 1, 0)),
     hit('parabola', (1, 4), (-1, 1), (0, -3, (9, 8)), (1, 1), (0, (3, 5), (4, 5)), (0, (-4, 5), (3, 5))),
+    # a general conic (prolate ellipsoid, k = -19/36): phi = 8/9 at rho = 2, slope 3/4
+    hit('conic', (1, 3), (-19, 36), (2, 0, (12, 17)), (8, 9), ((-3, 5), 0, (4, 5)), (0, 1, 0)),
+    hit('conic', (1, 3), (-19, 36), (0, -2, (12, 17)), (8, 9), (0, (3, 5), (4, 5)), (1, 0, 0)),
 ]
 INCID = [((1, 1), (0, 1)), ((4, 5), (3, 5)), ((3, 5), (4, 5)), ((12, 13), (5, 13)), ((-4, 5), (3, 5)), ((-1, 1), (0, 1))]
 BENDS = ['[typ |-> "reflect", mu |-> <<1, 1>>, ci2 |-> <<1, 1>>, si2 |-> <<0, 1>>]'] + [
@@ -155,6 +158,65 @@ def replay(rec, ctx, np, SM, SF):
         ctx.fail('Ray:%s:%s' % (kind_, cls_), 'c=%s k=%s Q=%s inc=%s mu=%s: %s' % (c, k, fv(h['q']), rec['inc'], mu, m[:400]), rec)
 
 
+def replay_batches(recs, ctx, np, SM, SF):
+    """The same rays traced as ONE (N, 3) batch per surface: every ray of a batch must come out as it does alone (rays converge
+    on different Newton iterations; the first ray of a batch may hit the vertex)."""
+    groups = {}
+    for rec in recs:
+        h = rec['hit']
+        key = json.dumps([h['kind'], h['c'], h['k'], rec['shift'], rec['frame'], rec['bend'], rec['len']])
+        groups.setdefault(key, []).append(rec)
+    n0 = 1.5
+    for key, grp in groups.items():
+        if len(grp) < 2:
+            continue
+        grp = sorted(grp, key=lambda r: 0 if (r['hit']['q'][0][0] == 0 and r['hit']['q'][1][0] == 0) else 1)     # a vertex ray first
+        rec = grp[0]
+        h = rec['hit']
+        kind, typ = h['kind'], rec['bend']['typ']
+        c, k = float(Fraction(*h['c'])), float(Fraction(*h['k']))
+        rot = np.array([fv(row) for row in rec['frame']['rot']])
+        pos = np.array(fv(rec['frame']['pos']))
+        sx, sy = (float(Fraction(*v)) for v in rec['shift'])
+        Rm = None if np.array_equal(rot, np.eye(3)) and not pos.any() else rot
+        n1 = n0 / float(Fraction(*rec['bend']['mu']))
+        nfun = (lambda wvl: n1) if typ == 'refract' else None
+        keep = []
+        for r in grp:
+            pl_, sl_ = np.array(fv(r['p0local'])), np.array(fv(r['s0local']))
+            cross = pl_ - (pl_[2] / sl_[2]) * sl_ if sl_[2] != 0 else np.array([np.inf, np.inf, 0.])
+            steep = kind != 'plane' and (1 + k) * c * c * float((cross[0] + sx) ** 2 + (cross[1] + sy) ** 2) >= 1
+            if not steep and not r['localorigin']:
+                keep.append(r)          # (the two recorded findings are single-ray defects; they stay out of the batches)
+        if len(keep) < 2:
+            continue
+        try:
+            if sx or sy:
+                surf = SF.Surface.off_axis_conic(c, k, typ, pos.copy(), dy=sy, dx=sx, n=nfun, R=Rm)
+            elif kind == 'plane':
+                surf = SF.Surface.plane(typ, pos.copy(), n=nfun, R=Rm)
+            elif kind == 'sphere':
+                surf = SF.Surface.sphere(c, typ, pos.copy(), nfun, R=Rm)
+            else:
+                surf = SF.Surface.conic(c, k, typ, pos.copy(), n=nfun, R=Rm)
+            P = np.array([fv(r['p0']) for r in keep])
+            S = np.array([fv(r['s0']) for r in keep])
+            ph, sh = SM.raytrace([surf], P.copy(), S.copy(), 0.6, n_ambient=n0)
+            wantp = np.array([fv(r['p1']) for r in keep])
+            wants = np.array([fv(r['s1']) for r in keep])
+            bad = [i for i in range(len(keep)) if core.maxabs(np.asarray(ph)[1][i] - wantp[i]) > 1e-9 or core.maxabs(np.asarray(sh)[1][i] - wants[i]) > 1e-9]
+            if bad:
+                i = bad[0]
+                ctx.fail('Ray:batch:%s:%s' % (kind, typ), 'surface %s c=%s k=%s, %d rays traced together: ray %d comes out at %s direction %s, alone at %s direction %s'
+                         % (kind, c, k, len(keep), i, np.asarray(ph)[1][i].tolist(), np.asarray(sh)[1][i].tolist(), wantp[i].tolist(), wants[i].tolist()), keep[i])
+        except Exception as ex:
+            import traceback
+            if not any('/prysm/' in f.filename for f in traceback.extract_tb(ex.__traceback__)):
+                raise
+            ctx.fail('Ray:batch:%s:%s:raised' % (kind, typ), '%s: %s' % (type(ex).__name__, ex), rec)
+        ctx.replayed(1, key=('batch', key))
+
+
 def replay_rotation(ctx, np, SM):
     """make_rotation_matrix-built frames: into and out of the frame is a rigid motion (lengths, dot products, inverse)."""
     from prysm.coordinates import make_rotation_matrix
@@ -198,6 +260,7 @@ def run(ctx, replay_path=None, selftest=False, replay=None):
     r = ctx.tlc('RayTrace', c, defs=d, name='emit', coverage=False, count=False)
     for rec in r.records:
         fn(rec, ctx, np, SM, SF)
+    replay_batches(r.records, ctx, np, SM, SF)
     replay_rotation(ctx, np, SM)
     if selftest:
         rec = json.loads(json.dumps(next(x for x in r.records if x['bend']['typ'] == 'refract' and x['hit']['kind'] == 'sphere')))
